@@ -24,6 +24,9 @@ impl Rng {
     pub fn pick<T: Copy>(&mut self, xs: &[T]) -> T {
         xs[self.below(xs.len() as u64) as usize]
     }
+    pub fn pick_ref<'a, T>(&mut self, xs: &'a [T]) -> &'a T {
+        &xs[self.below(xs.len() as u64) as usize]
+    }
     pub fn chance(&mut self, num: u64, den: u64) -> bool {
         self.below(den) < num
     }
